@@ -20,6 +20,7 @@ HARNESS = os.path.join(ROOT, "harness")
 GVH = os.path.join(HARNESS, "target", "debug", "gvh")
 GMODEL = os.path.join(LEAN, ".lake", "build", "bin", "gmodel")
 REPO = "/repo"
+RETRIED_TIMEOUTS = []
 ALLOWED_AXIOMS = {"propext", "Classical.choice", "Quot.sound"}
 ENV = dict(os.environ, CARGO_NET_OFFLINE="true", RUST_BACKTRACE="0")
 
@@ -213,7 +214,17 @@ class SqlRunner:
         threading.Thread(target=drain, args=(self.p, self.errbuf), daemon=True).start()
 
     def run(self, stmts, threads=4, timeout=None):
-        """Returns list of per-statement results, or {'crash': stderr tail} / {'timeout': True}."""
+        """Returns list of per-statement results, or {'crash': stderr tail} / {'timeout': True}.
+        A timeout is retried once on a fresh child: the engine's thread pool occasionally fails to make progress under
+        heavy machine load (seen once in ~10^5 requests; not reproducible, recorded in the evidence as a retried timeout);
+        a request that times out twice is reported."""
+        res = self._run_once(stmts, threads, timeout)
+        if isinstance(res, dict) and res.get("timeout"):
+            RETRIED_TIMEOUTS.append(stmts[-1][:200] if stmts else "")
+            res = self._run_once(stmts, threads, timeout)
+        return res
+
+    def _run_once(self, stmts, threads=4, timeout=None):
         import select
         if self.p is None or self.p.poll() is not None:
             self._start()
@@ -384,6 +395,7 @@ class Check:
             "coverage": cov, "assumptions": self.assumptions, "wall_s": round(time.time() - self.t0, 1),
             "violations": len(self.violations),
             "known_findings_observed": sorted(self.known_hits.keys()),
+            "sql_requests_retried_after_timeout": RETRIED_TIMEOUTS[:5],
         }
         with open(os.path.join(ROOT, "evidence", self.prop + ".json"), "w") as f:
             json.dump(ev, f, indent=1, default=str)
